@@ -635,6 +635,28 @@ func extraC15(c *Ctx) {
 			c.Ob("R15.3b", "compareAndUpdateObject#spec", mu.Pos(), ok2, "spec written = spec returned by the script", ifs(!ok2, "the spec written depends on the live object's spec"))
 		}
 	}
+	// the same write through the unstructured helpers: SetNestedMap / SetNestedField(obj, value, "spec")
+	for _, ci := range AllCalls(fn) {
+		cn := CalleeName(ci.Common())
+		if !(strings.HasSuffix(cn, "unstructured.SetNestedMap") || strings.HasSuffix(cn, "unstructured.SetNestedField")) || len(ci.Common().Args) < 3 {
+			continue
+		}
+		if !SliceHasDeep(ci.Common().Args[2], func(t *Term) bool { return t.Op == "const" && strings.Trim(t.Name, "`\"") == "spec" }) {
+			continue
+		}
+		n++
+		v := ci.Common().Args[1]
+		live := false
+		for x := range BackwardSlice(v) {
+			if lk, ok := x.(*ssa.Lookup); ok {
+				if k, isC := lk.Index.(*ssa.Const); isC && k.Value != nil && k.Value.Kind() == constant.String && constant.StringVal(k.Value) == "spec" {
+					live = true
+				}
+			}
+		}
+		ok2 := fromData(v) && !live
+		c.Ob("R15.3b", "compareAndUpdateObject#spec", ci.Pos(), ok2, "spec written = spec returned by the script", ifs(!ok2, "the spec written depends on the live object's spec"))
+	}
 	if n < 2 {
 		c.Ob("R15.3b", "compareAndUpdateObject#writes", fn.Pos(), false, "spec and labels writes", fmt.Sprintf("found %d of 2", n))
 	}
